@@ -561,3 +561,82 @@ Proof.
   - intros bs sh. destruct (binding_last_loader bs HeadingRow sh) as [pre H].
     split; [exists pre; exact H|]. rewrite H. apply rows_tl.
 Qed.
+
+(* ---------------------------------------------------------------- explicit positions, any order *)
+Definition declared (decl : list (key * nat)) : schema :=
+  map (fun kp => mk_entry (fst kp) (Some (snd kp))) decl.
+
+Lemma keys_declared decl : keys (declared decl) = map fst decl.
+Proof. unfold keys, declared. rewrite map_map. reflexivity. Qed.
+
+Lemma declared_position_nth decl : forall i k p,
+  NoDup (map fst decl) -> nth_error decl i = Some (k, p) ->
+  declared_position key_eqb decl k = Some p.
+Proof.
+  induction decl as [|[k0 p0] decl IH]; intros i k p Hnd H.
+  - destruct i; discriminate.
+  - simpl in Hnd. inversion Hnd as [|x l Hnotin Hnd']; subst.
+    destruct i as [|i]; simpl in H.
+    + injection H as -> ->. simpl. rewrite key_eqb_refl. reflexivity.
+    + simpl. rewrite key_eqb_neq; [apply (IH i); assumption|].
+      intros E. apply Hnotin. rewrite E.
+      change k with (fst (k, p)). apply in_map. eapply nth_error_In. exact H.
+Qed.
+
+Lemma explicit_by_name decl k r :
+  NoDup (map fst decl) ->
+  nav_name (dict_of (declared decl)) k r
+  = match declared_cell key_eqb decl k r with Some v => Ok v | None => Err KeyError end.
+Proof.
+  intros Hnd. rewrite dict_of_nodup; [|rewrite keys_declared; exact Hnd].
+  unfold declared_cell.
+  destruct (in_dec (list_eq_dec N.eq_dec) k (map fst decl)) as [Hin|Hnot].
+  - destruct (In_nth_error _ _ Hin) as [i Hi].
+    destruct (nth_error decl i) as [[k0 p]|] eqn:E.
+    + pose proof (eq_trans (eq_sym Hi) (map_nth_error fst i decl E)) as Hk. simpl in Hk. injection Hk as ->.
+      rewrite (declared_position_nth decl i k0 p Hnd E). simpl.
+      unfold nav_name.
+      assert (nth_error (declared decl) i = Some (mk_entry k0 (Some p))) as He.
+      { unfold declared. rewrite (map_nth_error _ i decl E). reflexivity. }
+      pose proof (find_entry_nth (declared decl) i _ (eq_ind_r (fun l => NoDup l) Hnd (keys_declared decl)) He) as Hf.
+      simpl in Hf. rewrite Hf. simpl. destruct (nth_error r p); reflexivity.
+    + exfalso. apply nth_error_None in E.
+      assert (nth_error (map fst decl) i = None) as H0 by (apply nth_error_None; rewrite map_length; exact E).
+      pose proof (eq_trans (eq_sym Hi) H0) as Hk. discriminate.
+  - rewrite nav_missing; [|rewrite keys_declared; exact Hnot].
+    assert (declared_position key_eqb decl k = None) as ->; [|reflexivity].
+    clear Hnd. induction decl as [|[k0 p0] decl IH]; [reflexivity|].
+    simpl. rewrite key_eqb_neq.
+    + apply IH. intros Hin. apply Hnot. right. exact Hin.
+    + intros E. apply Hnot. left. exact E.
+Qed.
+
+Lemma explicit_values decl r :
+  NoDup (map fst decl) -> values (dict_of (declared decl)) r = Ok (cells_at decl r).
+Proof.
+  intros Hnd.
+  assert (forall kp, In kp decl ->
+            nav_name (dict_of (declared decl)) (fst kp) r = Ok (nth_error r (snd kp))) as H.
+  { intros [k p] Hin. simpl. rewrite (explicit_by_name decl k r Hnd). unfold declared_cell.
+    destruct (In_nth_error _ _ Hin) as [i Hi].
+    rewrite (declared_position_nth decl i k p Hnd Hi). reflexivity. }
+  unfold values.
+  replace (keys (dict_of (declared decl))) with (map fst decl)
+    by (rewrite dict_of_nodup; [symmetry; apply keys_declared|rewrite keys_declared; exact Hnd]).
+  rewrite map_map. unfold cells_at.
+  apply (collect_map_ok (fun kp => nav_name (dict_of (declared decl)) (fst kp) r)). exact H.
+Qed.
+
+Lemma explicit_positions decl :
+  NoDup (map fst decl) ->
+  (forall k r, nav_name (dict_of (declared decl)) k r
+               = match declared_cell key_eqb decl k r with Some v => Ok v | None => Err KeyError end)
+  /\ (forall i k p r, nth_error decl i = Some (k, p) ->
+                      nav_name (dict_of (declared decl)) k r = Ok (nth_error r p))
+  /\ (forall r, values (dict_of (declared decl)) r = Ok (cells_at decl r)).
+Proof.
+  intros Hnd. split; [intros k r; apply explicit_by_name; exact Hnd|]. split.
+  - intros i k p r Hi. rewrite (explicit_by_name decl k r Hnd). unfold declared_cell.
+    rewrite (declared_position_nth decl i k p Hnd Hi). reflexivity.
+  - intros r. apply explicit_values. exact Hnd.
+Qed.
